@@ -15,7 +15,7 @@ CHECKS = {
    note="trusted: simnet, synctest clock, seamgen overlay; the accept loop / original-destination lookup of handleNewConn is re-implemented by the harness; input space is sampled",
    tech=TECH + " (simulated TCP segmentation/pacing/clock, seeded search, differential twin run)"),
  "C04": dict(cat="exploration", ref="5 C04",
-   text="for min and every prefix id x flush policy x port mode all single cuts (offsets 1..89) of the real client's first flight + early data are enumerated, all cut pairs for min and a seed-rotated twelfth of the prefix parameter sets (thorough: all); generated runs add 1-3 concurrent clients (incl. obfs4 with the real interactive handshake), k-cut segmentations, pacing, early data up to 64 KiB and co-registrations; oracle: echo host got exactly the application bytes, client got the echo, one dial, registration still matchable after 11 min + sweep",
+   text="for min and every prefix id x flush policy x port mode all single cuts (offsets 1..89) of the real client's first flight + early data are enumerated, all cut pairs for min and a seed-rotated twelfth of the prefix parameter sets (thorough: all); generated runs add 1-3 concurrent clients (incl. obfs4 with the real interactive handshake), k-cut segmentations, pacing, early data up to 64 KiB and co-registrations; oracle: echo host got exactly the application bytes, client got the echo, one dial, registration still matchable after 11 min + sweep; the second connection is, in a third of the runs, a one-way transfer of a minute (upload into a silent covert, download to a silent client); the station holds 0-2 older private keys in front of the one the clients use",
    note="trusted: simnet, synctest clock, seamgen overlay, echo actor; obfs4's 2-cut space and the pacing space are sampled; accept-loop glue re-implemented",
    tech=TECH + " (segmentation enumeration + seeded schedule/pacing search through the real station)"),
  "C05": dict(cat="fault_enumeration", ref="5 C05",
@@ -27,7 +27,7 @@ CHECKS = {
    note="trusted: the independent evaluator; literals and the empty host are resolved by the real net.ResolveIPAddr (no DNS), names by the scripted resolver; the textual address space is sampled, not enumerated; policy as of admission time",
    tech=TECH + " (scripted faulty resolver as third party, admission->dial history through the real station, independent oracle at the dial seam)"),
  "C07": dict(cat="exploration", ref="5 C07",
-   text="the admission decision table is driven through the real ingest pipeline: transport x source x each of 20 ways to break exactly one admission condition is enumerated as a single message, combinations / duplicates / share-over-API settings are sampled; an executable admission model written from the property text decides per family; observables: GetRegistrations(phantom), New announcements, liveness probe calls, peer-API posts (count, prescanned marking, only after liveness)",
+   text="the admission decision table is driven through the real ingest pipeline: transport x source x each of 22 ways to break exactly one admission condition (or to spell a default out) is enumerated as a single message, combinations / duplicates / share-over-API settings are sampled; an executable admission model written from the property text decides per family; observables: GetRegistrations(phantom), New announcements, liveness probe calls, peer-API posts (count, prescanned marking, only after liveness)",
    note="trusted: the admission model (from the property text), recorder stubs for liveness / peer API / detector; messages whose completeness the property leaves open are not generated; repeats of rejected messages are don't-cares",
    tech=TECH + " (decision table through the simulated environment: liveness verdicts, peer delivery, duplicates; executable model as oracle)"),
  "C08": dict(cat="exploration", ref="5 C08",
@@ -43,7 +43,7 @@ CHECKS = {
    note="trusted: pion dtls/sctp internals run uninstrumented inside the bubble (their goroutines become tasks only when they enter the listener's locks); the datagram simnet lives in the harness; 'same secret => completes' is only demanded when no datagram fault fired",
    tech=TECH + " (script enumeration below the real stream stack, lock-level scheduling of the listener, simulated datagram network with loss / duplication / delay, simulated clock for the watchdog)"),
  "C17": dict(cat="fault_enumeration", ref="5 C17",
-   text="all single faults: outcome class (no registration, no transport, found via min/prefix/obfs4, transport error) plus connecting-transport registrations whose Connect fails with DTLS-shaped errors or is relayed, x client family (IPv4, IPv6, v4-mapped) x PROXY-header flag x 17 operation sites on the client connection, the dial and the covert connection x every error shape of that operation; pairs of faults and registration-path events sampled; everything the process writes to stdout/stderr/std logger is captured and searched for every textual form of the client address",
+   text="all single faults: outcome class (no registration, no transport, found via min/prefix/obfs4, transport error) plus connecting-transport registrations whose Connect fails with DTLS-shaped errors or is relayed, x client family (IPv4, IPv6, v4-mapped) x PROXY-header flag x 17 operation sites on the client connection, the dial and the covert connection x every error shape of that operation; pairs of faults and registration-path events sampled; LOG_CLIENT_IP unset or spelled out as a false value; everything the process writes to stdout/stderr/std logger is captured and searched for every textual form of the client address",
    note="trusted: simnet's error shapes mirror the net package's (OpError text with both endpoints); the capture redirects os.Stdout/os.Stderr before any logger is created; statistics printers are exercised under C19, not here",
    tech=TECH + " (fault enumeration over I/O call sites x error shapes with log capture)"),
  "C18": dict(cat="exploration", ref="5 C18",
@@ -63,7 +63,7 @@ CHECKS = {
    note="code between two lock operations runs atomically; third-party code is not instrumented; the auxiliary race run is statistical and outside the deterministic core (reported separately in the evidence); no known finding left (the unsynchronised OnReload was repaired in c8c3e7f)",
    tech=TECH + " (lock-level cooperative scheduler with emulated RWMutex, bounded-preemption enumeration + seeded search, porcupine; auxiliary race-detector stress)"),
  "C10": dict(cat="exploration", ref="5 C10",
-   text="admitted registrations over every transport, both families, registrant forms (IPv4, 16-byte v4-mapped, IPv6, absent) and registrar overrides are driven through the real station; the real sendToDetector / clearDetector publish through a real go-redis client over a simulated connection into a RESP stub feeding a Go port of the detector's acceptance rules and session table; every payload must be accepted, describe its registration, request 10 min / 6 h; what the station would still match must be live in the model at every checked instant; Cleanup must empty the table; repeats of registrations, a UDP stand-in transport with old client library versions, a stop request while a worker is probing (main()-like stop sequence), a post-sweep clause (what the station still tracks must be live in the detector), a station crash is a verdict",
+   text="admitted registrations over every transport, both families, registrant forms (IPv4, 16-byte v4-mapped, IPv6, absent) and registrar overrides are driven through the real station; the real sendToDetector / clearDetector publish through a real go-redis client over a simulated connection into a RESP stub feeding a Go port of the detector's acceptance rules and session table; every payload must be accepted, describe its registration, request 10 min / 6 h; what the station would still match must be live in the model at every checked instant; Cleanup must empty the table; repeats of registrations, a UDP stand-in transport with old client library versions, a stop request while a worker is probing (main()-like stop sequence), a post-sweep clause (what the station still tracks must be live in the detector), a station crash is a verdict; activation with a stale object after expiry and sweep must publish nothing; in half of the runs the station builds its go-redis client itself (real initRedisClient through the redisnew seam), with redis-server refusing the very first dial in half of those",
    note="trusted: the < 100-line Go port of src/sessions.rs (the Rust detector cannot be built here); no loss on the detector channel; expired-not-yet-swept registrations are don't-cares; message contents are sampled",
    tech=TECH + " (real publisher + redis client over simulated transport, executable detector model, simulated clock for lifetimes and restart)"),
  "C12": dict(cat="exploration", ref="5 C12",
@@ -116,7 +116,7 @@ def main():
         "setup_cmd": "./bin/setup",
         "hooks": {
             "guard": "verif",
-            "enable": "no source change in /repo: bin/check generates a build-time overlay (go test -overlay, -tags verif) from the current working tree: cmd/seamgen rewrites lock/go/net/math-rand call sites of the instrumented packages to verif/sim/hook and maps /verif/harness/** test files into the packages",
+            "enable": "no source change in /repo: bin/check generates a build-time overlay (go test -overlay, -tags verif) from the current working tree: cmd/seamgen rewrites lock / go / net / math-rand / select / selected map-range / *net.TCPConn / redis.NewClient call sites of the instrumented packages to verif/sim/hook (or to a variable of the package's harness export file) and maps /verif/harness/** test files into the packages",
             "baseline_off_cmd": "for m in $(cat /w/out/gomods.txt); do MF=$(cd /repo/$m && . /w/out/goenv.sh && gomodflag); (cd /repo/$m && go test $MF -json -vet=off -count=1 -timeout 25m ./...); done",
             "source_commits": [],
             "add_only": True,
